@@ -19,7 +19,8 @@ Import ListNotations.
 
 (** whenever get_modified returns: sequence length, sites, individuals, populations, "everything
     else" are untouched; time_units is the method's; every node keeps its id (row), flags,
-    population and individual; the edges and the migrations are the input's rows (as a multiset);
+    population and individual; the migration table is the input's, row for row; the edges are the
+    input's rows (as a multiset);
     the mutations are the input's mutations with the node column replaced by the result's
     [mutation_node] (as a multiset of (site, node, state)); the provenance table is the input's
     or the input's plus one row *)
@@ -39,7 +40,7 @@ Theorem C02_frame :
     time_units out = c_time_units c /\
     map (node_static N byte) (nodes out) = map (node_static N byte) (nodes tb) /\
     Permutation (edges out) (edges tb) /\
-    Permutation (migs out) (migs tb) /\
+    migs out = migs tb /\
     Permutation (map (mut_ident N byte state) (muts out))
                 (map (fun ru => (m_site (fst ru), snd ru, m_state (fst ru))) (combine (muts tb) (r_mut_node res))) /\
     (provs out = provs tb \/ exists r, provs out = (provs tb ++ [r])%list).
@@ -73,17 +74,17 @@ Theorem C02_sorted_rows_keep_ids :
 Proof. exact isort_sorted_id. Qed.
 Print Assumptions C02_sorted_rows_keep_ids.
 
-(** "each mutation's ... derived state and node" and "the migration table ... unchanged" are
-    FALSE row by row of the faithful model (findings K9 and C02-migrations-resorted): a valid
-    3-node input with two mutations at one site (row 0 on a sample, row 1 above the root) and two
-    migrations at one time; [tables.sort()] (core.py:241) returns both tables in the other order *)
+(** "each mutation's ... derived state and node" is FALSE row by row of the faithful model
+    (finding K9): a valid 3-node input with two mutations at one site (row 0 on a sample, row 1
+    above the root); [tables.sort()] (core.py:241) returns them in the other order.  The two
+    equal-time migrations of the same input keep their order (repaired finding
+    C02-migrations-resorted) *)
 Theorem C02_rows_refuted :
   map (fun m : mut_row FNum Z Z => (m_node m, m_state m)) (muts k9_tables) = [(0, 7%Z); (2, 8%Z)] /\
-  map g_md (migs k9_tables) = [[0%Z]; [1%Z]] /\
   match k9_out with
   | Modified out _ =>
       map (fun m : mut_row FNum Z Z => (m_node m, m_state m)) (muts out) = [(2, 8%Z); (0, 7%Z)] /\
-      map g_md (migs out) = [[1%Z]; [0%Z]]
+      map g_md (migs out) = [[0%Z]; [1%Z]]
   | Failed _ => False
   end.
 Proof. exact k9_witness. Qed.
